@@ -19,9 +19,15 @@ from mc.refmodel.server import typed_eq
 UNK, CONF, NULL = 'unk', 'conf', 'null'
 JUNK = [1, {}, [], {'jsonrpc': '2.0', 'id': True, 'result': 1}, {'jsonrpc': '2.0', 'id': False, 'error': {'code': 1, 'message': 'm'}}, {'jsonrpc': '2.0', 'id': 1}, {'jsonrpc': '1.0', 'id': 1, 'result': 1},
         {'jsonrpc': '2.0', 'id': 1, 'result': 1, 'error': {'code': 1, 'message': 'm'}},
-        {'jsonrpc': '2.0', 'id': 1, 'error': {'code': '1', 'message': 'm'}}, {'jsonrpc': '2.0', 'id': [1], 'result': 1}]
+        {'jsonrpc': '2.0', 'id': 1, 'error': {'code': '1', 'message': 'm'}}, {'jsonrpc': '2.0', 'id': [1], 'result': 1},
+        # error objects without a (string) message - also for codes that have a registered class with a default message
+        {'jsonrpc': '2.0', 'id': 1, 'error': {'code': -32601}}, {'jsonrpc': '2.0', 'id': 1, 'error': {'code': -32000, 'data': 1}},
+        {'jsonrpc': '2.0', 'id': 1, 'error': {'code': 7201}}, {'jsonrpc': '2.0', 'id': 1, 'error': {'code': 5, 'message': None}},
+        {'jsonrpc': '2.0', 'id': 1, 'error': {'message': 'm'}}, {'jsonrpc': '2.0', 'id': 1, 'error': {'code': -32603, 'message': 7}},
+        {'jsonrpc': '2.0', 'id': 1, 'error': {'code': -32000.0, 'message': 'm'}}, {'jsonrpc': '2.0', 'id': 1, 'error': {'code': True, 'message': 'm'}}]
 BODIES = ['1', '"x"', 'null', '{}', 'true', '{"jsonrpc":"2.0","id":1,"result":1}', '{"jsonrpc":"2.0","id":1}',
-          '{"jsonrpc":"2.0","id":null,"result":1}']
+          '{"jsonrpc":"2.0","id":null,"result":1}', '{"jsonrpc":"2.0","id":null,"error":{"code":-32600}}',
+          '{"jsonrpc":"2.0","id":null,"error":{"code":-32000,"message":null}}', '{"jsonrpc":"2.0","id":null,"error":{"code":-32700.0,"message":"m"}}']
 
 
 class HierV1(JsonRpcError):
@@ -88,6 +94,10 @@ def gen_cases(ctx):
                         yield dict(part='batch', kind=kind, strict=True, n=n, notif=False, via='send', entries=entries)
                         yield dict(part='batch', kind=kind, strict=True, n=n, notif=True, via='call', entries=entries)
                     yield dict(part='batch', kind='sync', strict=False, n=n, notif=False, via='send', entries=entries)
+                    if L <= n:
+                        # the hand-built request container itself is non-strict (it does not check its ids): the client's checks are the same
+                        for kind in ('sync', 'async'):
+                            yield dict(part='batch', kind=kind, strict=True, n=n, notif=False, via='send', entries=entries, lax_request=True)
         # one junk element at each position of each array of length <= n-1 (+1 junk)
         for L in range(0, min(n, 3)):
             for entries in itertools.product(alphabet, repeat=L):
@@ -172,7 +182,7 @@ def run_batch(c, rec):
         out = drive(c["kind"], batch.call)
     else:
         # a hand-built batch request sent through a fresh batch wrapper (nothing was add()ed to it)
-        req = BatchRequest(*[Request('m%d' % i, [i], id=i + base) for i in range(n)])
+        req = BatchRequest(*[Request('m%d' % i, [i], id=i + base) for i in range(n)], **({'strict': False} if c.get('lax_request') else {}))
         requests = list(req)
         out = drive(c["kind"], lambda: batch.send(req))
     rec.transitions += 1
